@@ -35,6 +35,10 @@ type TermConfig struct {
 	Table        string
 	// MinLoops / MinSites: vacuity floors for T-loop and T-rec.
 	MinLoops, MinSites int
+	// DepthRels: module-relative packages whose input-driven recursions (T1) must also be bounded
+	// by a constant depth guard (T-depth); MinDepthSites is the vacuity floor.
+	DepthRels     []string
+	MinDepthSites int
 }
 
 const parserPkg = core.Module + "/internal/bcl/internal/parser"
@@ -299,7 +303,7 @@ func Termination(r *core.Run, sc *Scope, tc TermConfig) {
 		}
 		return r.MovedLine(tc.Table, full, currentKeys) != ""
 	}
-	nrec, nsites := 0, 0
+	nrec, nsites, ndepth := 0, 0, 0
 	for _, comp := range sccs {
 		if len(comp) == 1 {
 			self := false
@@ -417,6 +421,87 @@ func Termination(r *core.Run, sc *Scope, tc TermConfig) {
 				}
 			}
 		}
+		// T-depth: the T1 edges of the packages named in DepthRels, with the functions that carry a
+		// depth guard taken out, must not contain a cycle
+		if len(tc.DepthRels) > 0 {
+			inDepthPkg := func(f *ScopeFunc) bool {
+				for _, rel := range tc.DepthRels {
+					if f.Pkg.PkgPath == core.Module+"/"+rel {
+						return true
+					}
+				}
+				return false
+			}
+			firstCall := map[*ScopeFunc]token.Pos{}
+			t1 := map[*ScopeFunc]map[*ScopeFunc]bool{}
+			var t1sites []*site
+			for _, k := range order {
+				st := sites[k]
+				if !strings.HasPrefix(st.cut, "T1") || !inDepthPkg(st.f) {
+					continue
+				}
+				t1sites = append(t1sites, st)
+				if p, ok := firstCall[st.f]; !ok || st.pos < p {
+					firstCall[st.f] = st.pos
+				}
+				for t := range st.callees {
+					if t1[st.f] == nil {
+						t1[st.f] = map[*ScopeFunc]bool{}
+					}
+					t1[st.f][t] = true
+				}
+			}
+			guarded := map[*ScopeFunc]string{}
+			for _, f := range comp {
+				if p, ok := firstCall[f]; ok {
+					if g := depthGuardOf(f, p); g != "" {
+						guarded[f] = g
+					}
+				}
+			}
+			var gnames []string
+			for f, g := range guarded {
+				gnames = append(gnames, shortFn(f.Name)+" (`"+g+"`)")
+			}
+			sort.Strings(gnames)
+			onDeep := map[*ScopeFunc]int{}
+			for i, c2 := range tarjan(comp, func(f *ScopeFunc) []*ScopeFunc {
+				if guarded[f] != "" {
+					return nil
+				}
+				var out []*ScopeFunc
+				for t := range t1[f] {
+					if guarded[t] == "" {
+						out = append(out, t)
+					}
+				}
+				sort.Slice(out, func(i, j int) bool { return out[i].Name < out[j].Name })
+				return out
+			}) {
+				if len(c2) > 1 || (t1[c2[0]][c2[0]] && guarded[c2[0]] == "") {
+					for _, f := range c2 {
+						onDeep[f] = i + 1
+					}
+				}
+			}
+			for _, st := range t1sites {
+				ndepth++
+				o := r.Add("R-TERM/T-depth", st.key, st.pos, "depth of the input-driven recursion through this call")
+				deep := false
+				if onDeep[st.f] != 0 && guarded[st.f] == "" {
+					for t := range st.callees {
+						if onDeep[t] == onDeep[st.f] {
+							deep = true
+						}
+					}
+				}
+				if deep {
+					o.Fail("this call lies on a recursion cycle whose depth nothing bounds but the length of the input (no function on it compares a nesting counter with a constant before recursing): a few megabytes of nested openers exhaust the goroutine stack, which is a fatal error, not a recoverable panic")
+				} else {
+					o.Auto("every cycle through this call passes a depth guard: %s", strings.Join(gnames, ", "))
+				}
+			}
+		}
 		sort.Strings(order)
 		for _, k := range order {
 			st := sites[k]
@@ -447,6 +532,11 @@ func Termination(r *core.Run, sc *Scope, tc TermConfig) {
 			}
 		}
 	}
+	if len(tc.DepthRels) > 0 {
+		r.Rule("R-TERM/T-depth", "for every recursive call site of the packages "+strings.Join(tc.DepthRels, ", ")+" that T-rec discharges by T1 (input consumed first: depth bounded only by the input length): take the functions of the cycle that, before their first call into the cycle, compare a counter (a field or a variable) with a constant in an `if` whose body returns and increment that counter; with those functions removed the T1 edges form no cycle — so the nesting depth the input can force is bounded by a constant")
+		r.Floor("R-TERM/T-depth", tc.MinDepthSites, "input-driven recursion of the parser / decoder")
+	}
+	_ = ndepth
 	r.Analysed["recursive_call_sites"] = nsites
 	r.Analysed["recursion_cycles"] = nrec
 	r.Analysed["must_consume_functions"] = countTrue(mc)
@@ -1561,4 +1651,55 @@ func ssaRecordedName(f *ssa.Function) string {
 		return core.RecordedFullName(fn)
 	}
 	return f.String()
+}
+
+// depthGuardOf: f compares a counter with a constant in an `if` with a returning body and
+// increments that counter, both before position `before` (its first call into the recursion).
+func depthGuardOf(f *ScopeFunc, before token.Pos) string {
+	info := f.Pkg.TypesInfo
+	guard, counter := "", ""
+	f.InspectOwn(func(x ast.Node) bool {
+		ifs, ok := x.(*ast.IfStmt)
+		if !ok || ifs.Pos() > before || len(ifs.Body.List) == 0 {
+			return true
+		}
+		if _, ret := ifs.Body.List[len(ifs.Body.List)-1].(*ast.ReturnStmt); !ret {
+			return true
+		}
+		b, ok := core.Unparen(ifs.Cond).(*ast.BinaryExpr)
+		if !ok || (b.Op != token.GTR && b.Op != token.GEQ) {
+			return true
+		}
+		if _, isConst := core.ConstInt(info, b.Y); !isConst {
+			return true
+		}
+		switch core.Unparen(b.X).(type) {
+		case *ast.SelectorExpr, *ast.Ident:
+		default:
+			return true
+		}
+		guard, counter = core.ExprStr(ifs.Cond), core.ExprStr(b.X)
+		return true
+	})
+	if counter == "" {
+		return ""
+	}
+	inc := false
+	f.InspectOwn(func(x ast.Node) bool {
+		switch y := x.(type) {
+		case *ast.IncDecStmt:
+			if y.Tok == token.INC && core.ExprStr(y.X) == counter && y.Pos() < before {
+				inc = true
+			}
+		case *ast.AssignStmt:
+			if y.Tok == token.ADD_ASSIGN && len(y.Lhs) == 1 && core.ExprStr(y.Lhs[0]) == counter && y.Pos() < before {
+				inc = true
+			}
+		}
+		return true
+	})
+	if !inc {
+		return ""
+	}
+	return guard
 }
